@@ -1,7 +1,7 @@
 """Driver for the catalogue harness (engine/cat): properties C01-C06, C08, C10."""
 import os, sys, json, time, subprocess
 from concurrent.futures import ThreadPoolExecutor
-from . import vbuild, common, macroclient
+from . import vbuild, common, macroclient, hdrclient
 
 ROOT = common.ROOT
 CAT = os.path.join(ROOT, "build", "cat", "cat")
@@ -98,6 +98,10 @@ def run(pid, tier, deadline_s):
             for opt in (("O2",) if tier == "quick" else ("O0", "O1", "O2", "O3", "Os")):
                 for fort in ("0", "2", "3"):
                     tasks.append((f"macroclient:{cc}:{opt}:{fort}", "prod", "C", 0, 1))
+    if pid == "C05":      # the public headers themselves: every function-like macro evaluates each argument once and, for constant operands, does what the function does
+        for cc in ("gcc", "clang"):
+            for opt in (("O0", "O2") if tier == "quick" else ("O0", "O1", "O2", "O3", "Os")):
+                tasks.append((f"hdrclient:{cc}:{opt}", "prod", "C", 0, 1))
     if pid == "C05":      # the printf_s directive grid, buffer, stream and stdout entry points: every failing call reports exactly once
         for grp in ("int", "float", "str", "multi"):
             for sh in range(4): tasks.append(("fmtgrid:" + grp, "prod", "C.UTF-8", sh, 4))
@@ -115,6 +119,8 @@ def run(pid, tier, deadline_s):
         try:
             if name.startswith("macroclient:"):
                 r = macroclient.task(*name.split(":")[1:])
+            elif name.startswith("hdrclient:"):
+                r = hdrclient.task(*name.split(":")[1:])
             elif name.startswith("longmove:"):
                 r = subprocess.run([LONGMOVE, "moves", name[9:], str(sh), str(nsh)], capture_output=True, text=True, errors="replace", env=dict(env, C07_PROP=pid), timeout=left)
             elif name.startswith("fmtguard:"):
@@ -150,7 +156,7 @@ def run(pid, tier, deadline_s):
                 continue
             j = json.loads(ln)
             if j["t"] == "viol":
-                if name.startswith("macroclient:"):
+                if name.startswith("macroclient:") or name.startswith("hdrclient:"):
                     sig = j["sig"]
                 elif name.startswith("longmove:"):
                     sig = j["sig"]; j["case"] = "longmove " + j["case"]
@@ -164,6 +170,8 @@ def run(pid, tier, deadline_s):
                     sig = j["sig"] + ("" if v in ("prod", "dist") else "|" + v)
                 e = viol.setdefault(sig, [0, j["case"], v, loc])
                 e[0] += j["n"]
+            elif j["t"] == "stat" and name.startswith("hdrclient:"):
+                evals += j["evaluations"]; nontriv += j["nontrivial"]; pf = per_fn.setdefault("public headers: every macro, arguments evaluated once, constant operands (build matrix)", [0, 0]); pf[0] += j["evaluations"]; pf[1] += j["nontrivial"]
             elif j["t"] == "stat" and name.startswith("macroclient:"):
                 evals += j["evaluations"]; nontriv += j["nontrivial"]; pf = per_fn.setdefault("public macros in a client application (build matrix)", [0, 0]); pf[0] += j["evaluations"]; pf[1] += j["nontrivial"]
             elif j["t"] == "stat" and name.startswith("longmove:"):
@@ -211,6 +219,8 @@ def replay_kv(kv, quiet=False):
     env = dict(os.environ, CAT_LIB=lib, LOCPATH=os.path.join(ROOT, "build", "locales"))
     if kv["case"].startswith("macroclient "):
         return macroclient.replay(kv["case"], quiet)
+    if kv["case"].startswith("hdrclient "):
+        return hdrclient.replay(kv["case"], quiet)
     if kv["case"].startswith("longmove "):
         r = subprocess.run([LONGMOVE, "replay"] + kv["case"].split()[1:], capture_output=True, text=True, errors="replace", env=dict(env, C07_PROP=kv["property"]))
     elif kv["case"].startswith("fmtguard "):
